@@ -1,0 +1,35 @@
+//go:build verif
+
+// Contracts for the deductive verification in /verif (comment-only; compiled code is unaffected).
+package golang
+
+//@ func (*Service).RunRules
+//@ requires s != nil && s.locker != nil
+//@ requires [unlocked] !prelocked && (forall k [48]byte :: !held[k])
+//@ modifies held, prelocked, db
+//@ ensures [postlocked] !prelocked
+//@ ensures [released] forall k [48]byte :: !held[k]
+//@ ensures [len] (len(rulesData) == 0 ==> len(result) == 1) && (len(rulesData) > 0 ==> len(result) == len(rulesData))
+//@ hint-after runRules@1 [heldisdeferred] forall k [48]byte :: deferred()[k] <==> held[k]
+//@ loop #1
+//@ invariant [range] 0 <= _n && _n <= len(rulesData) && len(results) == len(rulesData) && fresh(results)
+//@ loop #2
+//@ invariant [range] 0 <= _n && _n <= len(rulesData)
+//@ invariant [nonnil] forall j int :: 0 <= j && j < _n ==> rulesData[j] != nil
+//@ loop #3
+//@ invariant [range] 0 <= _n && _n <= len(rulesData) && pubKeyMap != nil && fresh(pubKeyMap)
+//@ invariant [seen] forall j int :: 0 <= j && j < _n ==> key48(rulesData[j].PubKey) in pubKeyMap
+//@ invariant [onlyseen] forall k [48]byte :: k in pubKeyMap ==> (exists j int :: 0 <= j && j < _n && k == key48(rulesData[j].PubKey))
+//@ invariant [distinct] forall i int, j int :: 0 <= i && i < j && j < _n ==> key48(rulesData[i].PubKey) != key48(rulesData[j].PubKey)
+//@ loop #4
+//@ invariant [range] 0 <= _n && _n <= len(rulesData) && prelocked
+//@ invariant [held] forall k [48]byte :: held[k] <==> (exists j int :: 0 <= j && j < _n && k == key48(rulesData[j].PubKey))
+//@ invariant [deferred] forall k [48]byte :: deferred()[k] <==> held[k]
+
+//@ func (*Service).runRules
+//@ requires s != nil
+//@ requires [noprelock] !prelocked
+//@ requires [locked] (action == ruler.ActionSign || action == ruler.ActionSignBeaconProposal || action == ruler.ActionSignBeaconAttestation) ==> (forall i int :: 0 <= i && i < len(rulesData) ==> held[key48(rulesData[i].PubKey)])
+//@ requires [distinct] (action == ruler.ActionSign || action == ruler.ActionSignBeaconProposal || action == ruler.ActionSignBeaconAttestation) ==> (forall i int, j int :: 0 <= i && i < j && j < len(rulesData) ==> key48(rulesData[i].PubKey) != key48(rulesData[j].PubKey))
+//@ modifies db
+//@ ensures [len] len(result) == len(rulesData)
